@@ -220,9 +220,17 @@ def build_ctl(scn, pool, log, interval):
 
     k = scn["kind"]
     if k == "linear":
-        return LinearController(pool, low_utilisation=scn["low"] / 4, high_allocation=scn["high"] / 4, rate=scn["rate"] / 4, interval=interval)
+        kw = {"low_utilisation": scn["low"] / 4, "high_allocation": scn["high"] / 4, "rate": scn["rate"] / 4, "interval": interval}
+        for name, default in (("low_utilisation", 0.5), ("high_allocation", 0.5), ("rate", 1), ("interval", 1)):
+            if kw[name] == default:
+                del kw[name]  # a parameter with its documented default value is left to the default
+        return LinearController(pool, **kw)
     if k == "relative":
-        return RelativeSupplyController(pool, low_utilisation=scn["low"] / 4, high_allocation=scn["high"] / 4, low_scale=scn["lscale"] / 4, high_scale=scn["hscale"] / 4, interval=interval)
+        kw = {"low_utilisation": scn["low"] / 4, "high_allocation": scn["high"] / 4, "low_scale": scn["lscale"] / 4, "high_scale": scn["hscale"] / 4, "interval": interval}
+        for name, default in (("low_utilisation", 0.5), ("high_allocation", 0.5), ("interval", 1)):
+            if kw[name] == default:
+                del kw[name]
+        return RelativeSupplyController(pool, **kw)
     if k == "stepwise":
         def mk(rid):
             def rule(p, iv):
